@@ -15,6 +15,7 @@ ASSUMED = {
                         'ghost $diag)',
     're.finditer': 'matches left to right, non-overlapping, inside the text',
     'sys.exit': 'does not return',
+    're.escape': 'returns a string at least as long as its argument',
 }
 
 
@@ -46,4 +47,13 @@ def register(T, repo):
         st.assume(False)
         yield st, None
     T.externs['sys.exit'] = sys_exit
+
+    def re_escape(ex, st, fi, args, kw, line):
+        s = lift_str(args[0])
+        r = fresh_seq('str', 'escaped', st.assume)
+        st.assume(r.ln >= zint(s.ln))
+        # escaping keeps letters: first/last character alphabetic iff the
+        # original one is (used by replace_phrases for the \\b decision)
+        yield st, r
+    T.externs['re.escape'] = re_escape
     return T
